@@ -1,6 +1,7 @@
 /-
-  Model of internal/reporter/reporter.go: Report.isEqual, Summary.Report (insertion-time de-dup),
-  SortReports (diagnostics sort + stable report sort with the Go comparator chain), isSameIssue, Dedup.
+  Model of internal/reporter/reporter.go: cmpReports / cmpRules / cmpDiagnostics (one total comparator, after the
+  C11 `fix:` commit), Report.isEqual (= the comparator says 0), Summary.Report (insertion-time de-dup),
+  SortReports (diagnostics sort + stable report sort), isSameIssue, Dedup.
   Strings are order-preserving numeric ranks (the harness ranks them).
 -/
 namespace Pint.Report
@@ -19,10 +20,12 @@ structure Rep where
   pLast : Int
   rFirst : Int          -- Rule.Lines
   rLast : Int
-  ruleKind : Nat        -- alerting / recording / error identity, as compared by Rule.IsSame
+  ruleName : Nat
+  ruleKind : Nat        -- rank of (alerting, recording, error line, error details, error set, error text), in cmpRules' order
   reporter : Nat
   summary : Nat
   details : Nat
+  anchor : Nat
   sev : Nat
   diags : List Diag
   deriving DecidableEq, Repr, Inhabited
@@ -45,34 +48,36 @@ def stableSort {α} (le : α → α → Bool) (l : List α) : List α := l.foldl
 
 def sortDiags (ds : List Diag) : List Diag := stableSort (fun a b => decide (cmpDiags b a ≥ 0)) ds
 
-/-- `cmpDiagnostics`: −1 when the first list is empty, 1 when the second is, else compare the first diagnostics -/
-def cmpDiagnostics (sa sb : List Diag) : Int :=
-  match sortDiags sa, sortDiags sb with
-  | [], _ => -1
+/-- element-wise, then by length: `for i := range min(len) { if c != 0 return c }; return cmp.Compare(len(sa), len(sb))` -/
+def cmpList {α} (c : α → α → Int) : List α → List α → Int
+  | [], [] => 0
+  | [], _ :: _ => -1
   | _ :: _, [] => 1
-  | a :: _, b :: _ => cmpDiags a b
+  | x :: xs, y :: ys => orElse (c x y) (cmpList c xs ys)
 
-/-- the comparator of SortReports -/
+/-- `cmpDiagnostics`: sorted copies compared as lists -/
+def cmpDiagnostics (sa sb : List Diag) : Int := cmpList cmpDiags (sortDiags sa) (sortDiags sb)
+
+/-- `cmpRules` -/
+def cmpRules (a b : Rep) : Int :=
+  orElse (cmpInt a.rFirst b.rFirst) <| orElse (cmpInt a.rLast b.rLast) <| orElse (cmpNat a.ruleName b.ruleName) <|
+  cmpNat a.ruleKind b.ruleKind
+
+/-- `cmpReports`: the comparator of SortReports, and of isEqual -/
 def cmpReports (a b : Rep) : Int :=
   orElse (cmpNat a.pathName b.pathName) <| orElse (cmpInt a.pFirst b.pFirst) <| orElse (cmpInt a.pLast b.pLast) <|
   orElse (cmpNat a.sev b.sev) <| orElse (cmpNat a.reporter b.reporter) <| orElse (cmpNat a.summary b.summary) <|
-  cmpDiagnostics a.diags b.diags
+  orElse (cmpDiagnostics a.diags b.diags) <| orElse (cmpNat a.details b.details) <| orElse (cmpNat a.anchor b.anchor) <|
+  orElse (cmpNat a.owner b.owner) <| orElse (cmpNat a.pathTarget b.pathTarget) <| cmpRules a b
 
 /-- `a` may stay before `b`: Go's insertion step moves `b` left only while `cmp(b, a) < 0` -/
 def leRep (a b : Rep) : Bool := decide (cmpReports b a ≥ 0)
 
-def sameDiagnostics (sa sb : List Diag) : Bool :=
-  sa.length = sb.length && sa.all fun a => sb.any fun b => a.firstCol = b.firstCol && a.lastCol = b.lastCol && a.msg = b.msg
-
 def sameDiagMessages (sa sb : List Diag) : Bool :=
   sa.length = sb.length && sa.all fun a => sb.any fun b => a.msg = b.msg
 
-/-- `r.isEqual(nr)` — note `r.Problem.Lines.Last` is compared with `nr.Rule.Lines.Last` -/
-def isEqual (r nr : Rep) : Bool :=
-  nr.pathTarget = r.pathTarget && nr.pathName = r.pathName && nr.owner = r.owner &&
-  r.pFirst = nr.pFirst && r.pLast = nr.rLast &&
-  (nr.ruleKind = r.ruleKind && nr.rFirst = r.rFirst && nr.rLast = r.rLast) &&
-  nr.reporter = r.reporter && nr.summary = r.summary && sameDiagnostics nr.diags r.diags && nr.sev = r.sev
+/-- `r.isEqual(nr)`: the canonical order cannot tell them apart -/
+def isEqual (r nr : Rep) : Bool := decide (cmpReports r nr = 0)
 
 /-- `Summary.Report` for one report -/
 def insertRep (acc : List Rep) (r : Rep) : List Rep := if acc.any (fun er => isEqual er r) then acc else acc ++ [r]
